@@ -243,6 +243,14 @@ def h13g(c):
     h14a(_Only(c, ("request-takes-effect", "no-exception", "every-update-delivered")), n_streams=2, lengths=(2, 3), orders=True, closing=True)
 
 
+def h13h(c, U=3):
+    """loop level (C07 world): a strategy callback raises inside SimulatedDateTime.real_time(); the framework contains the error and the run
+    stays on the simulated clock, so requests (of any strategy) still take effect when they are due and callbacks still see publish times"""
+    from .c07 import h07
+    from .c06 import _Only
+    h07(_Only(c, ("strategy-clock=publish-time", "executed-at-first-due-update", "never-due", "no-exception")), U=U, R=1, real_time_error=True)
+
+
 def h13d(c, U=3):
     """loop level (C07 world, two requests queued together): each request takes effect at its own first due update whatever other
     packages share the simulation's pending queue - a strategy's cancel is not held up by someone else's slower placement"""
@@ -340,6 +348,7 @@ HARNESSES = [
     Harness("H13d", h13d, quick=dict(U=3), thorough=dict(U=4), pattern="P3 with symbolic time", requires=["run", "executed"], outside=OUT, selfcheck=False),
     Harness("H13c", h13c, pattern="exhaustive choice product (structural)", requires=["separate", "may-share"], outside=OUT, selfcheck=False),
     Harness("H13g", h13g, pattern="P1 + P3 (requests in flight across stream ends)", requires=["run", "event-group", "request-executed"], outside=OUT, selfcheck=False),
+    Harness("H13h", h13h, quick=dict(U=3), thorough=dict(U=4), pattern="P3 with symbolic time + P5", requires=["run", "executed"], outside=OUT, selfcheck=False),
     Harness("H13f", h13f, pattern="exhaustive choice product (structural)", requires=["separate", "may-share"], outside=OUT, selfcheck=False),
     Harness("H13b", h13b, quick=dict(U=2), thorough=dict(U=3), pattern="P5 fault schedule as a variable", requires=["injected"], outside=OUT, selfcheck=False),
 ]
